@@ -258,6 +258,10 @@ func localEtag(p string) (string, bool) {
 	return fmt.Sprintf("%x%x", fi.ModTime().UnixNano(), fi.Size()), true
 }
 
+var fsExtraHeaders = [][2]string{{"Content-MD5", "AAAAAAAAAAAAAAAAAAAAAA=="}, {"X-Expected-Entity-Length", "5"}, {"Content-Language", "en"}, {"Translate", "f"},
+	{"Accept-Encoding", "gzip"}, {"User-Agent", "Microsoft-WebDAV-MiniRedir/10.0.19045"}, {"Accept", "text/html"}, {"Cache-Control", "no-cache"}, {"Brief", "t"},
+	{"Prefer", "return=minimal"}, {"X-OC-Mtime", "1700000000"}, {"Connection", "close"}, {"Content-Disposition", "attachment; filename=\"other.txt\""}}
+
 type msResponse struct {
 	Hrefs     []string `xml:"DAV: href"`
 	PropStats []struct {
@@ -346,6 +350,14 @@ func (sb *sandbox) do(rq fsReq) (line string, goOut string) {
 		hdr.Set("Content-Type", rq.ctype)
 		t, _, _ := mime.ParseMediaType(rq.ctype)
 		ctypeXml = t == "application/xml" || t == "text/xml"
+	}
+	// header fields that say nothing about which resource is meant or under which condition (a third of the
+	// requests carries one, chosen by the request itself; the model is not told)
+	{
+		k := (len(rq.path)*5 + len(rq.method)*11 + len(rq.body)*3 + len(rq.depth) + int(rq.ifm) + len(pre)) % (3 * len(fsExtraHeaders))
+		if k < len(fsExtraHeaders) {
+			hdr.Set(fsExtraHeaders[k][0], fsExtraHeaders[k][1])
+		}
 	}
 	body := rq.body
 	pf := rq.pf
@@ -458,6 +470,21 @@ func (sb *sandbox) do(rq fsReq) (line string, goOut string) {
 	if status/100 == 2 && (rq.method == "GET" || rq.method == "HEAD" || rq.method == "PUT") && hostTarget != "" {
 		if now, ok := localEtag(hostTarget); ok {
 			tagged = res.Header.Get("ETag") == internal.ETag(now).String() && res.Header.Get("Last-Modified") != ""
+		}
+	}
+	if tagged && rq.method == "HEAD" && status == 200 {
+		// HEAD announces what GET would send: the same entity headers (the model only carries one flag for them)
+		greq := &http.Request{Method: "GET", URL: &url.URL{Path: rq.path}, Header: hdr.Clone(), Body: http.NoBody, Proto: "HTTP/1.1", ProtoMajor: 1, ProtoMinor: 1, Host: "example.com"}
+		grec := httptest.NewRecorder()
+		func() {
+			defer func() { recover() }()
+			sb.h.ServeHTTP(grec, greq)
+		}()
+		gres := grec.Result()
+		for _, k := range []string{"Content-Type", "Content-Length", "Etag", "Last-Modified", "Content-Encoding"} {
+			if strings.Join(res.Header.Values(k), "\x00") != strings.Join(gres.Header.Values(k), "\x00") {
+				tagged = false
+			}
 		}
 	}
 	multi := "( )"
@@ -724,10 +751,12 @@ func famFsReq(o *Out, r *RNG, thorough bool) {
 		// siblings named like the temporary files an "atomic write" would use
 		{path: "/n", content: "8"}, {path: "/n.tmp", content: "9"}, {path: "/n~", content: "10"}, {path: "/m.tmp", dir: true}, {path: "/m.part", content: "11"}, {path: "/.n.swp", content: "12"},
 		// names that end in dots
-		{path: "/v1.", dir: true}, {path: "/v1./f", content: "13"}, {path: "/draft.", content: "14"}, {path: "/v1./etc...", content: "15"}}
+		{path: "/v1.", dir: true}, {path: "/v1./f", content: "13"}, {path: "/draft.", content: "14"}, {path: "/v1./etc...", content: "15"},
+		// names that are not UTF-8 (a Latin-1 file name, a lone continuation byte) and names with characters XML or URLs treat specially
+		{path: "/caf\xe9.txt", content: "16"}, {path: "/\xff\xfe", dir: true}, {path: "/\xff\xfe/\x80", content: "17"}, {path: "/a&b<c>.txt", content: "18"}, {path: "/100%.txt", content: "19"}}
 	sb.reset(tree2)
 	base2 := sxTree(sb.listing())
-	names2 := []string{"/a", "/ab", "/a.bak", "/abc", "/a/x", "/a/xy", "/docs", "/docs/..old", "/docs/...", "/docs/.../in", "/docs/..new", "/.hidden", "/..data", "/..data/f", "/.h", "/v1.", "/draft.", "/v1./etc..."}
+	names2 := []string{"/a", "/ab", "/a.bak", "/abc", "/a/x", "/a/xy", "/docs", "/docs/..old", "/docs/...", "/docs/.../in", "/docs/..new", "/.hidden", "/..data", "/..data/f", "/.h", "/v1.", "/draft.", "/v1./etc...", "/caf\xe9.txt", "/\xff\xfe", "/\xff\xfe/\x80", "/a&b<c>.txt", "/100%.txt"}
 	// request paths that end in a dot or dot-dot segment (the resource is what the cleaned path names)
 	for _, p := range []string{"/a/..", "/a/../docs/..", "/docs/.../..", "/v1./.", "/a/.", "/v1./..", "/a/x/.."} {
 		for _, depth := range []string{"0", "1"} {
